@@ -20,6 +20,7 @@ var checks = map[string]func(*vk.Run){
 	"C12": ka.RunC12,
 	"C03": ka.RunC03,
 	"C01": rp.RunC01,
+	"C02": rp.RunC02,
 }
 
 func main() {
